@@ -1181,6 +1181,8 @@ class ASTBuilder:
                 mod = parseFile(path)
             except (SyntaxError, ValueError) as e:
                 ctx.report(f"cannot parse file, {e}")
+            except RecursionError:
+                ctx.report("cannot parse file, too many nested expressions")
 
             self.ast_cache[path] = mod
             return mod
@@ -1189,7 +1191,7 @@ class ASTBuilder:
         mod = None
         try:
             mod = _parse(py_string)
-        except (SyntaxError, ValueError):
+        except (SyntaxError, ValueError, RecursionError):
             ctx.report("cannot parse string")
         return mod
 
